@@ -243,6 +243,13 @@ impl Header {
         self.header_checksum = header_checksum;
     }
 
+    /// Verification hook: set the blob offset and recompute the header checksum
+    #[cfg(pearl_verif)]
+    pub(crate) fn set_offset_checksum_unchecked(&mut self, blob_offset: u64) {
+        self.blob_offset = blob_offset;
+        let _ = self.update_checksum();
+    }
+
     /// Calculates offset for the `blob_offset` field in serialized header
     /// len is length of serialized header in bytes
     pub(super) const fn blob_offset_offset(len: usize) -> usize {
